@@ -48,6 +48,7 @@ type Profile struct {
 	TightMaxVals         bool   // validator-count limit close to the number of candidates
 	SmallPowers          bool   // powers 1..3 (slashing forfeiture boundary)
 	HostileDocs          bool   // option documents that pass validation but are odd
+	HostileDocsWide      bool   // ... and the whole list of hostile documents of C09
 }
 
 func defaultWeights() map[string]int {
@@ -1094,6 +1095,16 @@ func (s *GenSource) excludeUnstake(w *World, sp *txSpec, id []byte, h int64) boo
 	return false
 }
 
+// hostileDocs: option documents of hostile proposals (C09); with HostileDocsWide they are also put into otherwise
+// well-formed proposals that get voted on and - if they pass validation - applied.
+var hostileDocs = []string{
+	``, `{`, `[]`, `null`, `"x"`, `{}`, `{"gasPrice":"10"}`, `{"gasPrice":"-1"}`, `{"gasPrice":"1e9"}`, `{"gasPrice":10}`,
+	`{"maxValidatorCnt":"-1"}`, `{"maxValidatorCnt":"99999999999999999999999"}`, `{"minValidatorStake":"0x10"}`,
+	`{"slashRatio":"101","signedBlocksWindow":"0"}`, `{"rewardPerPower":""}`, `{"gasPrice":""}`, `{"minTrxGas":"18446744073709551616"}`,
+	`{"a":{"b":{"c":[1,2,{"d":null}]}}}`, `{"version":"2","maxValidatorCnt":"3"}`, `{"gasPrice":"10","x":""}`, `{"minValidatorStake":""}`,
+	"{\"gasPrice\":\"1\x00\"}", `{"gasPrice":"115792089237316195423570985008687907853269984665640564039457584007913129639936"}`,
+}
+
 func (s *GenSource) genOption(w *World) []byte {
 	t := s.t
 	switch unif(t, 40, "optKind") {
@@ -1105,6 +1116,9 @@ func (s *GenSource) genOption(w *World) []byte {
 		return []byte(`{}`)
 	case 3:
 		return []byte(`{"maxValidatorCnt":3}`) // number instead of string: rejected by the decoder
+	}
+	if s.P.HostileDocsWide && pct(t, 35, "hostileDocWide") {
+		return []byte(pick(t, hostileDocs, "hostileDocWidePick"))
 	}
 	if s.P.HostileDocs && pct(t, 25, "hostileDoc") {
 		return []byte(pick(t, []string{`{"gasPrice":""}`, `{"rewardPerPower":""}`, `{"minValidatorStake":""}`, `{"version":"2","gasPrice":""}`, `{"gasPrice":"10","minDelegatorStake":""}`, `{"x":""}`, `{}`, `{"slashRatio":"7","y":"z"}`}, "hostileDocPick"))
